@@ -7,6 +7,31 @@ sys.path.insert(0, HERE)
 
 CLAIMS = {
 
+    'C03': ('proof',
+            'The per-thread pipeline is decomposed into stages, each with a contract proved on the real (lowered) code for all states: queue read loop (_read_and_decode_frontend_queue, both instantiations, loop contract: a record is consumed iff decoded, pushed once), decode/admit (_populate_transit_event_from_frontend_queue skeleton), TransitEventBuffer (every method against a sequence view, growth preserves order), selection and processing (_process_lowest_timestamp_transit_event: exactly one pop of the selected buffer after the dispatch on every path incl. exceptions; false only if all buffers empty), per-sink write (_write_log_statement: once per accepting sink), reclaim predicate (only drained contexts of exited threads), registry removal.',
+            'Composition of the stage contracts into "once each, in thread order" is a paper argument over shared ghost counters (no lemma unit yet); liveness (every statement is eventually processed) is not claimed; registration hand-off race (new_thread_context_flag) not covered; queues/buffers are abstracted in the BackendWorker skeletons by the views their own units prove; context/sink lists are abstracted to {tracked, representative}.',
+            'CBMC code contracts on control skeletons + leaf data structures, loop contracts, ghost counters, exception lowering', '§3 C03'),
+    'C05': ('proof',
+            'The three ordering mechanisms as postconditions of the real code: admission (a statement is pushed only if its timestamp <= the pass limit unless user clock / ordering disabled; otherwise left in the queue untouched), min-timestamp selection (processed event <= every other buffer front, loop contract with ghost index), batch loops of _poll and _exit (a processing step only immediately after a negative pending check) and the pending check itself (false only if no thread has an empty buffer with a non-empty queue); the timestamp is read once, before the first enqueue attempt, and is the one encoded (log_statement).',
+            'The global invariant "last written timestamp <= everything still buffered or admitted" is composed on paper from these contracts plus the property\'s own grace-period assumption and monotone per-thread clocks; TSC conversion, system clock and OS scheduling are assumptions; ts_now is read once per pass (not covered by a unit).',
+            'CBMC code contracts on control skeletons, loop contracts with ghost index', '§3 C05'),
+    'C06': ('proof',
+            'Mechanism contracts on the real code: flush_log enqueues the request until accepted (never dropped) and returns only after observing the very flag it sent; the Flush arm of _process_transit_event flushes the active sinks before handing the flag back; _process_lowest_timestamp_transit_event stores the flag after the event was processed and popped; _flush_and_run_active_sinks flushes every collected sink exactly once with a zero interval even when a sink throws; the collecting lambda puts every sink of every valid logger in the set once.',
+            '"Earlier statements were written" follows from FIFO per thread (C01-C03) and min-timestamp order (C05): composed on paper. Known finding flush-skips-removed-logger (sinks of removed-but-registered loggers are not flushed) is reported as KNOWN-FINDING. Sink internals (fflush/fsync) are not covered.',
+            'CBMC code contracts with ghost event clock (ordering of calls), loop contracts', '§3 C06'),
+    'C08': ('proof',
+            'LoggerImpl::log_statement control skeleton with queue type, dynamic level and immediate flush symbolic (one proof for all instantiations): returns false iff a dropping queue refused the single reservation and then nothing was committed; true => exactly one commit of exactly the reserved size; failure counter incremented iff first reservation failed and the event is an ordinary Log; the source\'s own NDEBUG-disabled size assertions are obligations. get_and_reset_failure_counter under producer interference between its two accesses (no drop lost or double counted); _check_failure_counter reports exactly the value taken, only for bounded queues; flush/init_backtrace/flush_backtrace retry until accepted.',
+            'Delivered-intact-in-order is C01/C02. The argument pack is three stubs (size pass, encode pass, decoder) whose consistency is C04. Sequentially consistent semantics for the failure counter. remove_logger_blocking retry not covered unless unit FE.remove_blocking exists.',
+            'CBMC code contracts, symbolic template parameters, rely steps in atomic stubs, loop contracts', '§3 C08'),
+    'C10': ('proof',
+            'Exceptions are lowered to a ghost flag with EXC_STD / EXC_OTHER; a handler absent in the source is absent in the lowering. Proved on the real code: _populate_formatted_log_message contains ANY exception type, writes the error text and notifies once; _process_lowest_timestamp_transit_event ends with no pending exception, one pop regardless, notifier iff thrown; _flush_and_run_active_sinks attempts every sink; the backtrace replay callback contains sink exceptions per statement; _process_transit_event reports a backtrace statement without storage as a std error; read loop: a record whose decoding throws is not consumed.',
+            'User code (formatters, sinks, notifier) is an arbitrary function that may throw either class; the notifier itself is assumed not to throw. ManualBackendWorker::poll_one and _populate_formatted_named_args share the text pattern and are not separate units.',
+            'CBMC code contracts with mechanical try/catch -> ghost-flag lowering', '§2.4, §3 C10'),
+    'C16': ('proof',
+            'should_log_statement (both forms) == (level >= logger level) over the whole enum; Sink::apply_all_filters <=> level >= sink level and every filter accepts, new filters picked up first (loop contract); _write_log_statement: each sink independently written once iff its own filters accept, with the override formatter iff the sink has override options, and told the effective level; TransitEvent::log_level and the decode tail: static statements never inherit a dynamic level from a reused slot, dynamic statements carry exactly the encoded level.',
+            'The log macros (arguments not evaluated when the level check fails) are not covered by a unit (macro bodies vanish in preprocessing; planned as MAC.call). Filters are arbitrary predicates (ghost answer).',
+            'CBMC code contracts, loop contracts, {tracked, representative} list abstraction', '§3 C16'),
+
     'C01': ('proof',
             'Thread-modular contracts on every method of the real BoundedSPSCQueueImpl<size_t> (constructor included): a global invariant proved inductive over both threads\' methods from arbitrary invariant states with symbolic wrapping 64-bit positions, every capacity and every batch threshold; atomic loads/stores are contract-only stubs carrying ghost release/acquire views, so a load returns ANY value the C++11 rules allow and safety (grant only inside released space, consumer only shown committed bytes) is stated against the happens-before frontier, not against x86 behaviour. Address-function lemma (no two unreleased records share a byte, contiguous, inside the 2*capacity buffer) over full 64-bit domains.',
             'Assumed: exactly one producer and one consumer; construction happens-before both; C++11 release-sequence rules as encoded in the view stubs; the reduction argument (one foreign access per method => atomic action) is checked syntactically; paper lemma from INV + grants + address lemma + size accounting (C04) to stream equality. Pointer obligations of prepare_write/prepare_read need capacity <= 2^40 (CBMC object size); arithmetic obligations are unbounded.',
